@@ -306,7 +306,6 @@ func c07RGBFallback(c *Ctx, info *types.Info, ems []*Emission) {
 		c.undecided("C07.b", "vaxis.(*Vaxis).render", 0, "render not found")
 		return
 	}
-	par := c.P.Parents(fi.Pkg)
 	n := 0
 	for _, e := range ems {
 		if e.FnName != fi.Name || !e.Resolved {
@@ -340,44 +339,12 @@ func c07RGBFallback(c *Ctx, info *types.Info, ems []*Emission) {
 			c.undecided("C07.b", key, e.Call.Pos(), "cannot identify the parameter slice of the direct-colour emission")
 			continue
 		}
-		// definitions of psObj in the enclosing block
-		var defs []*ast.AssignStmt
-		ast.Inspect(fi.Decl.Body, func(x ast.Node) bool {
-			if as, ok := x.(*ast.AssignStmt); ok {
-				for _, l := range as.Lhs {
-					if id, ok := l.(*ast.Ident); ok && info.ObjectOf(id) == psObj {
-						defs = append(defs, as)
-					}
-				}
-			}
-			return true
-		})
-		okDef := false
-		why := fmt.Sprintf("%d definitions of %s", len(defs), psObj.Name())
-		if len(defs) == 2 {
-			d1, d2 := defs[0], defs[1]
-			src := c07ParamsRecv(info, d1.Rhs[0], false)
-			fb := c07ParamsRecv(info, d2.Rhs[0], true)
-			l2, ok2 := c.P.Graph(fi).Locate(d2)
-			var gk []string
-			if ok2 {
-				gk = guardKeys(c.P.Graph(fi), l2)
-			}
-			// d2 sits in an if-statement without else that follows d1 in the same block and precedes the emission's switch
-			ifs, _ := par[par[d2]].(*ast.IfStmt)
-			sameBlock := ifs != nil && par[ifs] == par[d1] && ifs.Else == nil && d1.Pos() < ifs.Pos() && ifs.End() < e.Call.Pos()
-			switch {
-			case src == "" || fb == "" || src != fb:
-				why = fmt.Sprintf("fallback %s is not asIndex().Params() of the same colour as %s", types.ExprString(d2.Rhs[0]), types.ExprString(d1.Rhs[0]))
-			case !containsStr(gk, "-Vaxis.caps.rgb"):
-				why = fmt.Sprintf("the fallback assignment is not under !caps.rgb (guards %v)", gk)
-			case len(extraGuards(c, fi, d1, gk)) != 1:
-				why = fmt.Sprintf("the fallback is taken only under the additional conditions %v", extraGuards(c, fi, d1, gk))
-			case !sameBlock:
-				why = "the fallback is not an unconditional `if !caps.rgb { ps = … }` between the definition and the emission"
-			default:
-				okDef = true
-			}
+		// provenance: under !caps.rgb every value of the parameter slice that can reach the emission comes from
+		// asIndex().Params() (directly, or through a helper whose returns are judged the same way)
+		g := c.P.Graph(fi)
+		okDef, why := false, "the emission cannot be located in the flow graph"
+		if el, okL := g.Locate(e.Call); okL {
+			okDef, why = c07Provenance(c, fi, el, psObj, 0)
 		}
 		c.check(okDef, "C07.b", key, e.Call.Pos(), "parameters are replaced by asIndex().Params() whenever !caps.rgb", "a direct colour can be written without RGB support: "+why)
 	}
@@ -422,6 +389,197 @@ func c07RGBFallback(c *Ctx, info *types.Info, ems []*Emission) {
 		}
 		c.check(ok, "C07.b", key, rs.Pos(), "an index colour, the default colour, or the receiver when it is not RGB", "asIndex can return a colour that is not known to be non-RGB ("+why+")")
 	}
+}
+
+// c07Provenance decides, for the slice variable obj used at location at in fi: on every path on which
+// caps.rgb is false, the value of obj at `at` is the Params() of an asIndex() colour; and all values that can
+// reach `at` (on any path) are Params() of one and the same colour. Definitions by a call of a repository
+// function are judged at that function's return statements (depth-limited).
+func c07Provenance(c *Ctx, fi *FuncInfo, at Loc, obj types.Object, depth int) (bool, string) {
+	info := fi.Pkg.TypesInfo
+	g := c.P.Graph(fi)
+	if depth > 3 {
+		return false, "helper chain too deep"
+	}
+	// a parameter carries a value we cannot see
+	if fi.Decl.Type.Params != nil {
+		for _, f := range fi.Decl.Type.Params.List {
+			for _, nm := range f.Names {
+				if info.Defs[nm] == obj {
+					return false, fmt.Sprintf("%s is a parameter of %s: its provenance is not visible", obj.Name(), fi.Name)
+				}
+			}
+		}
+	}
+	type def struct {
+		node ast.Node
+		rhs  ast.Expr // nil: zero value
+	}
+	var defs []def
+	inspectNoLit(fi.Decl.Body, func(x ast.Node) bool {
+		switch t := x.(type) {
+		case *ast.AssignStmt:
+			for i, l := range t.Lhs {
+				if id, ok := l.(*ast.Ident); ok && info.ObjectOf(id) == obj {
+					if len(t.Lhs) == len(t.Rhs) && (t.Tok == token.ASSIGN || t.Tok == token.DEFINE) {
+						defs = append(defs, def{t, t.Rhs[i]})
+					} else {
+						defs = append(defs, def{t, &ast.BadExpr{}})
+					}
+				}
+			}
+		case *ast.ValueSpec:
+			for i, nm := range t.Names {
+				if info.Defs[nm] == obj {
+					if i < len(t.Values) {
+						defs = append(defs, def{t, t.Values[i]})
+					} else {
+						defs = append(defs, def{t, nil})
+					}
+				}
+			}
+		case *ast.RangeStmt:
+			for _, l := range []ast.Expr{t.Key, t.Value} {
+				if id, ok := l.(*ast.Ident); ok && info.ObjectOf(id) == obj {
+					defs = append(defs, def{t, &ast.BadExpr{}})
+				}
+			}
+		}
+		return true
+	})
+	if len(defs) == 0 {
+		return false, fmt.Sprintf("no definition of %s found", obj.Name())
+	}
+	isDef := func(n ast.Node) bool {
+		for _, d := range defs {
+			if d.node == n {
+				return true
+			}
+		}
+		return false
+	}
+	sigma := map[string]bool{"Vaxis.caps.rgb": false}
+	// the assumption is void if the function writes the flag
+	wr := false
+	inspectNoLit(fi.Decl.Body, func(x ast.Node) bool {
+		if as, ok := x.(*ast.AssignStmt); ok {
+			for _, l := range as.Lhs {
+				if lhsPath(info, l) == "Vaxis.caps.rgb" {
+					wr = true
+				}
+			}
+		}
+		return true
+	})
+	if wr {
+		sigma = map[string]bool{}
+	}
+	colours := map[string]bool{}
+	for _, d := range defs {
+		dl, ok := g.Locate(d.node)
+		if !ok {
+			return false, fmt.Sprintf("definition of %s at line %d is not in the flow graph", obj.Name(), c.P.Fset.Position(d.node.Pos()).Line)
+		}
+		reachAny := g.reachesUnder(dl, at, isDef, nil)
+		if !reachAny {
+			continue
+		}
+		reachNoRGB := g.reachesUnder(dl, at, isDef, sigma)
+		if d.rhs == nil {
+			continue // zero value: an empty slice selects no direct-colour form
+		}
+		if x := c07ParamsRecv(info, d.rhs, true); x != "" {
+			colours[canonExprOrString(info, d.rhs, true)] = true
+			continue
+		}
+		if x := c07ParamsRecv(info, d.rhs, false); x != "" {
+			colours[canonExprOrString(info, d.rhs, false)] = true
+			if reachNoRGB {
+				return false, fmt.Sprintf("%s = %s reaches the emission on a path where caps.rgb is false", obj.Name(), types.ExprString(d.rhs))
+			}
+			continue
+		}
+		// a helper of the repository: judge its return statements
+		if call, ok := unparen(d.rhs).(*ast.CallExpr); ok {
+			if hf := c.P.FuncOfObj(calleeOf(info, call)); hf != nil && hf.Decl.Body != nil {
+				if !reachNoRGB {
+					continue // only reaches with RGB support: any parameters are fine
+				}
+				hg := c.P.Graph(hf)
+				hinfo := hf.Pkg.TypesInfo
+				nret := 0
+				for _, h := range hg.Find(func(n ast.Node) bool { _, ok := n.(*ast.ReturnStmt); return ok }) {
+					rs := h.Node.(*ast.ReturnStmt)
+					if len(rs.Results) != 1 {
+						return false, fmt.Sprintf("helper %s: unsupported return form", hf.Name)
+					}
+					nret++
+					// a return that is itself unreachable without RGB support needs nothing
+					if holds, _ := hg.reachableUnder(h.Loc, sigma); !holds {
+						continue
+					}
+					r := unparen(rs.Results[0])
+					if c07ParamsRecv(hinfo, r, true) != "" {
+						continue
+					}
+					if id, ok := r.(*ast.Ident); ok {
+						if id.Name == "nil" {
+							continue
+						}
+						if ok2, why := c07Provenance(c, hf, h.Loc, hinfo.ObjectOf(id), depth+1); !ok2 {
+							return false, fmt.Sprintf("helper %s: %s", hf.Name, why)
+						}
+						continue
+					}
+					return false, fmt.Sprintf("helper %s returns %s, which is not known to be the parameters of an index colour when caps.rgb is false", hf.Name, types.ExprString(r))
+				}
+				if nret == 0 {
+					return false, fmt.Sprintf("helper %s has no return statement", hf.Name)
+				}
+				colours["helper:"+hf.Name+"("+canonArgs(info, call)+")"] = true
+				continue
+			}
+		}
+		if reachNoRGB {
+			return false, fmt.Sprintf("%s = %s reaches the emission without RGB support and is not asIndex().Params()", obj.Name(), exprStr(d.rhs))
+		}
+	}
+	if len(colours) > 1 {
+		return false, fmt.Sprintf("the parameters that reach the emission belong to different colours %v: the fallback is not the index form of the same colour", sortedKeys(colours))
+	}
+	return true, ""
+}
+
+func exprStr(e ast.Expr) string {
+	if _, ok := e.(*ast.BadExpr); ok {
+		return "<multi-value or range>"
+	}
+	return types.ExprString(e)
+}
+
+// canonExprOrString: the colour X of X.Params() / X.asIndex().Params(), canonically.
+func canonExprOrString(info *types.Info, e ast.Expr, viaIndex bool) string {
+	call := unparen(e).(*ast.CallExpr)
+	x := unparen(call.Fun.(*ast.SelectorExpr).X)
+	if viaIndex {
+		x = unparen(x.(*ast.CallExpr).Fun.(*ast.SelectorExpr).X)
+	}
+	if s := canonExpr(info, x); s != "" {
+		return s
+	}
+	return types.ExprString(x)
+}
+
+func canonArgs(info *types.Info, call *ast.CallExpr) string {
+	var parts []string
+	for _, a := range call.Args {
+		if s := canonExpr(info, a); s != "" {
+			parts = append(parts, s)
+		} else {
+			parts = append(parts, types.ExprString(a))
+		}
+	}
+	return strings.Join(parts, ",")
 }
 
 // c07ParamsRecv: e is X.Params() (viaIndex=false) or X.asIndex().Params() (viaIndex=true); returns canonical X.
@@ -487,39 +645,8 @@ func c07Chain(c *Ctx, info *types.Info, ems []*Emission) {
 		}
 		return true
 	})
-	// step 2: post sites in handleSequence (and sendQueries for COLORTERM)
-	type post struct {
-		ev  string
-		gk  []string
-		pos token.Pos
-	}
-	var posts []post
-	for _, fi := range []*FuncInfo{hs, c.P.Func("vaxis.(*Vaxis).sendQueries")} {
-		if fi == nil {
-			continue
-		}
-		g := c.P.Graph(fi)
-		for _, h := range g.Calls(func(fn *types.Func, _ *ast.CallExpr) bool {
-			return fn != nil && (fn.Name() == "PostEventBlocking" || fn.Name() == "PostEvent")
-		}) {
-			call := h.Node.(*ast.CallExpr)
-			if len(call.Args) != 1 {
-				continue
-			}
-			ev := ""
-			switch a := unparen(call.Args[0]).(type) {
-			case *ast.CompositeLit:
-				ev = types.ExprString(a.Type)
-			case *ast.CallExpr:
-				if tv, ok := info.Types[a.Fun]; ok && tv.IsType() {
-					ev = types.ExprString(a.Fun)
-				}
-			}
-			if _, isCapEv := evCaps[ev]; isCapEv && ev != "" {
-				posts = append(posts, post{ev, guardKeys(g, h.Loc), call.Pos()})
-			}
-		}
-	}
+	// step 2: post sites in handleSequence (and sendQueries for COLORTERM), helpers included
+	posts := c07Posts(c, func(ev string) bool { _, is := evCaps[ev]; return is && ev != "" })
 	// step 3: reference — reply context each capability event must come from, the flag it must set,
 	// and the sequence class it gates.
 	hex := func(s string) string { return fmt.Sprintf("%q", fmt.Sprintf("%X", s)) }
@@ -532,21 +659,21 @@ func c07Chain(c *Ctx, info *types.Info, ems []*Emission) {
 		comment string
 	}
 	links := []link{
-		{"synchronizedUpdates", "synchronizedUpdate", [][]string{{fin('y'), "seq.Parameters[0][0]==2026", "seq.Parameters[1][0]∈{1,2}"}}, "DECSET 2026", "DECRPM 2026 with value 1|2"},
-		{"unicodeCoreCap", "unicodeCore", [][]string{{fin('y'), "seq.Parameters[0][0]==2027", "seq.Parameters[1][0]∈{1,2}"}}, "DECSET 2027", "DECRPM 2027 with value 1|2"},
-		{"notifyColorChange", "colorThemeUpdates", [][]string{{fin('y'), "seq.Parameters[0][0]==2031", "seq.Parameters[1][0]∈{1,2}"}}, "DECSET 2031", "DECRPM 2031 with value 1|2"},
-		{"capabilitySixel", "sixels", [][]string{{fin('c'), "seq.Intermediate[0]==63", "ps[0]==4"}, {fin('S'), "seq.Intermediate[0]==63", "seq.Parameters[0][0]==2", "seq.Parameters[1][0]==0"}}, "DECSET 8452", "DA1 attribute 4 / XTSMGRAPHICS"},
-		{"kittyKeyboard", "kittyKeyboard", [][]string{{fin('u'), "seq.Intermediate[0]==63"}}, "kitty keyboard", "CSI ? u reply"},
-		{"kittyGraphics", "kittyGraphics", [][]string{{"+strings.HasPrefix(seq.Data, \"G\")"}}, "", "APC G reply"},
-		{"truecolor", "rgb", [][]string{{"DCS.Final==114", "seq.Intermediate[0]==43", "vals[0]==" + hex("RGB")}, {"os.Getenv(\"COLORTERM\")∈{\"truecolor\",\"24bit\"}"}}, "", "XTGETTCAP RGB / COLORTERM"},
-		{"styledUnderlines", "styledUnderlines", [][]string{{"DCS.Final==114", "seq.Intermediate[0]==43", "vals[0]==" + hex("Smulx")}, {"DCS.Final==124", "seq.Intermediate[0]==33", "string(seq.Data)==" + hex("~VTE")}}, "SGR 4:n", "XTGETTCAP Smulx / VTE tertiary DA"},
-		{"capabilityOsc4", "osc4", [][]string{{"+strings.HasPrefix(string(seq.Payload), \"4\")"}}, "OSC 4", "OSC 4 reply"},
-		{"capabilityOsc10", "osc10", [][]string{{"+strings.HasPrefix(string(seq.Payload), \"10\")"}}, "OSC 10", "OSC 10 reply"},
-		{"capabilityOsc11", "osc11", [][]string{{"+strings.HasPrefix(string(seq.Payload), \"11\")"}}, "OSC 11", "OSC 11 reply"},
-		{"textAreaPix", "reportSizePixels", [][]string{{fin('t'), "typ==4"}}, "XTWINOPS report", "CSI 4;h;w t"},
-		{"textAreaChar", "reportSizeChars", [][]string{{fin('t'), "typ==8"}}, "XTWINOPS report", "CSI 8;h;w t"},
-		{"inBandResizeEvents", "inBandResize", [][]string{{fin('t'), "typ==48"}}, "DECSET 2048", "CSI 48;... t"},
-		{"appID", "osc176", [][]string{{"+strings.HasPrefix(string(seq.Payload), \"176\")"}}, "OSC 176", "OSC 176 reply"},
+		{"synchronizedUpdates", "synchronizedUpdate", [][]string{{fin('y'), "CSI.Parameters[0][0]==2026", "CSI.Parameters[1][0]∈{1,2}"}}, "DECSET 2026", "DECRPM 2026 with value 1|2"},
+		{"unicodeCoreCap", "unicodeCore", [][]string{{fin('y'), "CSI.Parameters[0][0]==2027", "CSI.Parameters[1][0]∈{1,2}"}}, "DECSET 2027", "DECRPM 2027 with value 1|2"},
+		{"notifyColorChange", "colorThemeUpdates", [][]string{{fin('y'), "CSI.Parameters[0][0]==2031", "CSI.Parameters[1][0]∈{1,2}"}}, "DECSET 2031", "DECRPM 2031 with value 1|2"},
+		{"capabilitySixel", "sixels", [][]string{{fin('c'), "CSI.Intermediate[0]==63", "CSI.Parameters[*][0]==4"}, {fin('S'), "CSI.Intermediate[0]==63", "CSI.Parameters[0][0]==2", "CSI.Parameters[1][0]==0"}}, "DECSET 8452", "DA1 attribute 4 / XTSMGRAPHICS"},
+		{"kittyKeyboard", "kittyKeyboard", [][]string{{fin('u'), "CSI.Intermediate[0]==63"}}, "kitty keyboard", "CSI ? u reply"},
+		{"kittyGraphics", "kittyGraphics", [][]string{{"+strings.HasPrefix(APC.Data, \"G\")"}}, "", "APC G reply"},
+		{"truecolor", "rgb", [][]string{{"DCS.Final==114", "DCS.Intermediate[0]==43", "strings.Split(string(DCS.Data), \"=\")[0]==" + hex("RGB")}, {"os.Getenv(\"COLORTERM\")∈{\"truecolor\",\"24bit\"}"}}, "", "XTGETTCAP RGB / COLORTERM"},
+		{"styledUnderlines", "styledUnderlines", [][]string{{"DCS.Final==114", "DCS.Intermediate[0]==43", "strings.Split(string(DCS.Data), \"=\")[0]==" + hex("Smulx")}, {"DCS.Final==124", "DCS.Intermediate[0]==33", "string(DCS.Data)==" + hex("~VTE")}}, "SGR 4:n", "XTGETTCAP Smulx / VTE tertiary DA"},
+		{"capabilityOsc4", "osc4", [][]string{{"+strings.HasPrefix(string(OSC.Payload), \"4\")"}}, "OSC 4", "OSC 4 reply"},
+		{"capabilityOsc10", "osc10", [][]string{{"+strings.HasPrefix(string(OSC.Payload), \"10\")"}}, "OSC 10", "OSC 10 reply"},
+		{"capabilityOsc11", "osc11", [][]string{{"+strings.HasPrefix(string(OSC.Payload), \"11\")"}}, "OSC 11", "OSC 11 reply"},
+		{"textAreaPix", "reportSizePixels", [][]string{{fin('t'), "CSI.Parameters[0][0]==4"}}, "XTWINOPS report", "CSI 4;h;w t"},
+		{"textAreaChar", "reportSizeChars", [][]string{{fin('t'), "CSI.Parameters[0][0]==8"}}, "XTWINOPS report", "CSI 8;h;w t"},
+		{"inBandResizeEvents", "inBandResize", [][]string{{fin('t'), "CSI.Parameters[0][0]==48"}}, "DECSET 2048", "CSI 48;... t"},
+		{"appID", "osc176", [][]string{{"+strings.HasPrefix(string(OSC.Payload), \"176\")"}}, "OSC 176", "OSC 176 reply"},
 	}
 	for _, l := range links {
 		// event sets exactly its flag
@@ -905,4 +1032,60 @@ func c07InterpWidth(c *Ctx, fi *FuncInfo, sigma map[string]bool) ([]string, stri
 		return nil, strings.Join(m.problems, "; ")
 	}
 	return got, ""
+}
+
+type c07Post struct {
+	ev  string
+	gk  []string
+	pos token.Pos
+}
+
+// c07Posts: the sites that post an event accepted by want, in handleSequence, sendQueries and the same-package
+// functions they call (the keys in force at the call site are in force inside the callee; canonical paths are
+// anchored by type, so a sequence handed to a helper keeps its name).
+func c07Posts(c *Ctx, want func(ev string) bool) []c07Post {
+	var posts []c07Post
+	visited := map[*FuncInfo]bool{}
+	var collect func(fi *FuncInfo, outer []string, depth int)
+	collect = func(fi *FuncInfo, outer []string, depth int) {
+		if fi == nil || fi.Decl.Body == nil || depth > 3 || visited[fi] {
+			return
+		}
+		visited[fi] = true
+		info := fi.Pkg.TypesInfo
+		g := c.P.Graph(fi)
+		for _, h := range g.Calls(func(fn *types.Func, _ *ast.CallExpr) bool { return fn != nil }) {
+			call := h.Node.(*ast.CallExpr)
+			fn := calleeOf(info, call)
+			if fn == nil {
+				continue
+			}
+			if fn.Name() == "PostEventBlocking" || fn.Name() == "PostEvent" {
+				if len(call.Args) != 1 {
+					continue
+				}
+				ev := ""
+				switch a := unparen(call.Args[0]).(type) {
+				case *ast.CompositeLit:
+					ev = types.ExprString(a.Type)
+				case *ast.CallExpr:
+					if tv, ok := info.Types[a.Fun]; ok && tv.IsType() {
+						ev = types.ExprString(a.Fun)
+					}
+				}
+				if want(ev) {
+					gk := append(append([]string{}, outer...), guardKeys(g, h.Loc)...)
+					sort.Strings(gk)
+					posts = append(posts, c07Post{ev, gk, call.Pos()})
+				}
+				continue
+			}
+			if cf := c.P.FuncOfObj(fn); cf != nil && cf.Pkg == fi.Pkg && cf != fi {
+				collect(cf, append(append([]string{}, outer...), guardKeys(g, h.Loc)...), depth+1)
+			}
+		}
+	}
+	collect(c.P.Func("vaxis.(*Vaxis).handleSequence"), nil, 0)
+	collect(c.P.Func("vaxis.(*Vaxis).sendQueries"), nil, 0)
+	return posts
 }
